@@ -684,6 +684,7 @@ def resample_smooth(t):
     e = cls(np.array(t["grid"], dtype=float), t["gridsize"], t["origin"])
     out = {"steps": []}
     seen = {}
+    shared = {}
     real_gf = B.gaussian_filter
 
     def spy(a, sigma, *args, **kw):
@@ -700,13 +701,20 @@ def resample_smooth(t):
                 wsrc = [float(e.origin[a]) + 0.37 * float(e.gridsize[a]) * int(e.shape[a]) for a in range(nd)]
                 _call(lambda: e.solve(wsrc, nsweep=1))
                 _call(lambda: e(np.array(wsrc)))
+            sig_after = None
             if op_["kind"] == "resample":
                 e.resample(tuple(op_["shape"]), op_.get("method", "linear"))
+            elif op_.get("share") is not None:
+                # sigma handed over as a float64 ndarray, the same object for every op with the same key (a caller
+                # reusing its per-axis sigma array)
+                arr = shared.setdefault(op_["share"], np.array(op_["sigma"], dtype=np.float64))
+                e.smooth(arr)
+                sig_after = np.array(arr)
             else:
                 e.smooth(op_["sigma"])
             after = {"shape": tuple(e.shape), "gridsize": tuple(e.gridsize), "origin": np.array(e.origin),
                      "min": float(e.grid.min()), "max": float(e.grid.max()), "grid": np.array(e.grid),
-                     "sigma_cells": seen.get("sigma"), "finite": bool(np.isfinite(e.grid).all())}
+                     "sigma_cells": seen.get("sigma"), "finite": bool(np.isfinite(e.grid).all()), "sigma_arg_after": sig_after}
             out["steps"].append((op_, before, after))
     finally:
         B.gaussian_filter = real_gf
